@@ -1,6 +1,7 @@
 // Conformance harness, family "lie": executes group/tangent operations of the real library on
 // stratified operands and records every operand and result exactly (ndjson).  TLC validates the
 // trace with spec/TraceLie.tla.  One group type per translation unit (-DVH_GROUP=<n>).
+#define VH_NEAR_UNIT_C1 1
 #include <smooth/bundle.hpp>
 #include <smooth/c1.hpp>
 #include <smooth/derivatives.hpp>
